@@ -63,7 +63,8 @@ def gen_case(rng):
                 ops.append(["corr", i, j, c])
         elif r < 0.90 and n >= 2:
             i, j = rng.sample(range(n), 2)
-            if frozenset((i, j)) in cur:
+            # removing a correlation can also leave an inadmissible matrix: only scripts whose every state is admissible
+            if frozenset((i, j)) in cur and _pd(n, {k: v for k, v in cur.items() if k != frozenset((i, j))}):
                 cur.pop(frozenset((i, j)))
                 ops.append(["uncorr", i, j])
         elif r < 0.96:
@@ -239,10 +240,40 @@ def case_term(case, res):
 
 
 # ------------------------------------------------------------------------------------ monitor
+def _script_admissible(case):
+    """every correlation state the script goes through is positive definite (otherwise the library may refuse: its own
+    message says 'invalid circle correlation', and the property only speaks of valid configurations)"""
+    import numpy as np
+    n = len(case["markets"])
+    cur = {frozenset((i, j)): c for i, j, c in case["corr"]}
+    states = [dict(cur)]
+    for o in case["ops"]:
+        if o[0] == "corr":
+            cur[frozenset((o[1], o[2]))] = o[3]
+            states.append(dict(cur))
+        elif o[0] == "uncorr":
+            cur.pop(frozenset((o[1], o[2])), None)
+            states.append(dict(cur))
+    for st in states:
+        c = np.eye(n)
+        for k, v in st.items():
+            i, j = tuple(k)
+            c[i, j] = c[j, i] = v
+        if not np.all(np.linalg.eigvalsh(c) > 1e-9):
+            return False
+    return True
+
+
+def _raised(case, res):
+    if "LinAlgError" in str(res["error"]) and not _script_admissible(case):
+        return []          # an inadmissible correlation matrix was configured: refusing it is not a violation
+    return [V("fundamentals-raised", 0, error=res["error"])]
+
+
 def mon_C12(case, res):
     out = []
     if res["error"] is not None:
-        return [V("fundamentals-raised", 0, error=res["error"])]
+        return _raised(case, res)
     ids = [m["id"] for m in case["markets"]]
     init = {m["id"]: Fraction(m["initial"]) for m in case["markets"]}
     # state kept from the property text
@@ -321,7 +352,7 @@ def mon_C12_full(case, res):
     """walks the script and the observations together (parameter changes move the reference level of zero-volatility paths)"""
     out = []
     if res["error"] is not None:
-        return [V("fundamentals-raised", 0, error=res["error"])]
+        return _raised(case, res)
     import numpy as np
     ids = [m["id"] for m in case["markets"]]
     init = {m["id"]: Fraction(m["initial"]) for m in case["markets"]}
